@@ -193,6 +193,12 @@ def build_field(d, ctx, **extra):
             return f
     if k in ("number", "integer", "float"):
         cls = SIGN_CLASSES[(k, d.get("sign", "any"))]
+        if d.get("dec"):
+            # DecimalNumber: a `number` declaration whose arguments go through Decimal(...) first (Sem/Decimal.lean)
+            if k != "number" or d.get("sign", "any") != "any":
+                raise ValueError("build_field: DecimalNumber is a plain `number` declaration")
+            from typedpy import DecimalNumber
+            cls = DecimalNumber
         kw = {}
         if d.get("mult") is not None:
             kw["multiplesOf"] = d["mult"]
@@ -408,9 +414,13 @@ def dump_field(f, ctx=None):
     t = type(f)
     t = {ImmutableArray: Array, ImmutableDeque: Deque, ImmutableMap: Map, ImmutableInteger: Integer,
          ImmutableString: String, ImmutableFloat: Float, ImmutableNumber: Number}.get(t, t)
+    if t.__name__ == "DecimalNumber" and t.__module__.startswith("typedpy."):
+        kind, sign = "number", "any"
+        d = {"k": kind, "dec": True}
+        t = Number
     if t in CLASS_TO_SIGN:
         kind, sign = CLASS_TO_SIGN[t]
-        d = {"k": kind}
+        d = {"k": kind, "dec": True} if type(f).__name__ == "DecimalNumber" else {"k": kind}
         if sign != "any":
             d["sign"] = sign
         if f.multiplesOf is not None:
